@@ -29,12 +29,19 @@ def vecs (t : Table α) : Axis → List (List α)
   | .obs => t.rows
   | .samp => transposeGrid t.samp.length t.rows
 
+/-- "for consistency with init on absence of metadata": a metadata tuple whose entries are all empty
+(in particular the empty tuple) is stored as no metadata -/
+def normMd (m : Option (List Md)) : Option (List Md) :=
+  match m with
+  | some l => if l.all (fun e => e.isEmpty) then none else some l
+  | none => none
+
 /-- keep the positions of axis `ax` whose mask bit is set; everything else is untouched -/
 def filterAxis (t : Table α) (mask : List Bool) : Axis → Table α
   | .obs => { t with obs := filterMask t.obs mask, rows := filterMask t.rows mask,
-                     omd := t.omd.map (filterMask · mask) }
+                     omd := normMd (t.omd.map (filterMask · mask)) }
   | .samp => { t with samp := filterMask t.samp mask, rows := t.rows.map (filterMask · mask),
-                      smd := t.smd.map (filterMask · mask) }
+                      smd := normMd (t.smd.map (filterMask · mask)) }
 
 /-- what a user predicate is given: the dense vector, the ID, the metadata entry (`None` when the
 axis has no metadata) -/
@@ -214,15 +221,16 @@ def sortIndices (cs : CS α) : CS α := ofSlices cs.nMinor ((slices cs).map sort
 
 /-- `Table.filter` up to the result table.  `layout` is what `tocsr()` / `tocsc()` returned for the
 receiver's matrix (any well-formed layout of the same content; after a reordering its indices are
-unsorted); it is sorted, handed to the kernel, and ids / metadata / matrix are installed. -/
+unsorted); it is sorted, handed to the kernel, and ids / metadata / matrix are installed (metadata
+whose kept entries are all empty is installed as `None`). -/
 def tableFilter [Zero α] (t : Table α) (layout : CS α) (ax : Axis) (keep : Keep α) (invert : Bool) :
     Except Err (Table α × List (Call α)) :=
   match filterKernel (sortIndices layout) (t.ids ax) (t.md ax) keep invert with
   | .error e => .error e
   | .ok out =>
     match ax with
-    | .obs => .ok ({ t with obs := out.ids, omd := out.md, rows := out.cs.toDense }, out.calls)
-    | .samp => .ok ({ t with samp := out.ids, smd := out.md,
+    | .obs => .ok ({ t with obs := out.ids, omd := normMd out.md, rows := out.cs.toDense }, out.calls)
+    | .samp => .ok ({ t with samp := out.ids, smd := normMd out.md,
                              rows := transposeGrid t.obs.length out.cs.toDense }, out.calls)
 
 structure FilterOut (α : Type) where
@@ -265,6 +273,9 @@ def head [Zero α] (t : Table α) (layoutObs : CS α) (layoutSamp : Table α →
 
 /-! ## The property, stated on observations only -/
 
+/-- canonical metadata entry (Appendix B): absent metadata ≡ an empty entry -/
+def mdCanon (m : Option Md) : Md := m.getD []
+
 /-- Boolean equality through `DecidableEq` (so that it is equality, whatever `BEq` instance is derived) -/
 def eqb {β : Type} [DecidableEq β] (a b : β) : Bool := decide (a = b)
 
@@ -294,7 +305,7 @@ def resultClauses [DecidableEq α] (t r : Table α) (ax : Axis) (kept : List Id)
     chk "kept-ids-in-order" (eqb (r.ids ax) kept),
     chk "other-axis-ids" (eqb (r.ids ax.other) (t.ids ax.other)),
     chk "vectors-by-id" (kept.all (fun id => eqb (r.vec? ax id) (t.vec? ax id))),
-    chk "metadata-by-id" ((eqb (r.md ax).isSome (t.md ax).isSome) && kept.all (fun id => eqb (r.mdOf? ax id) (t.mdOf? ax id))),
+    chk "metadata-by-id" (kept.all (fun id => eqb (mdCanon (r.mdOf? ax id)) (mdCanon (t.mdOf? ax id)))),
     chk "other-axis-metadata" (eqb (r.md ax.other) (t.md ax.other)),
     chk "type" (eqb r.ttype t.ttype)]
 
@@ -371,8 +382,8 @@ def verdictRemoveEmpty [Zero α] [DecidableEq α] (t : Table α) (which : REAxis
       chk "exactly-the-nonzero-observations" (eqb r.obs eo),
       chk "exactly-the-nonzero-samples" (eqb r.samp es),
       chk "cells-by-id" (eo.all (fun o => es.all (fun s => eqb (r.cell? o s) (t.cell? o s)))),
-      chk "metadata-by-id" (((eqb r.omd.isSome t.omd.isSome) && eo.all (fun o => eqb (r.mdOf? .obs o) (t.mdOf? .obs o))) &&
-                            ((eqb r.smd.isSome t.smd.isSome) && es.all (fun s => eqb (r.mdOf? .samp s) (t.mdOf? .samp s)))),
+      chk "metadata-by-id" (eo.all (fun o => eqb (mdCanon (r.mdOf? .obs o)) (mdCanon (t.mdOf? .obs o))) &&
+                            es.all (fun s => eqb (mdCanon (r.mdOf? .samp s)) (mdCanon (t.mdOf? .samp s)))),
       chk "type" (eqb r.ttype t.ttype),
       chk "receiver" (eqb o.after (if inplace then r else t))]
 
@@ -395,8 +406,8 @@ def verdictHead [DecidableEq α] (t : Table α) (n m : Int) (o : CallObs α) : V
         chk "leading-n-observations" (eqb r.obs eo),
         chk "leading-m-samples" (eqb r.samp es),
         chk "cells-by-id" (eo.all (fun o => es.all (fun s => eqb (r.cell? o s) (t.cell? o s)))),
-        chk "metadata-by-id" (((eqb r.omd.isSome t.omd.isSome) && eo.all (fun o => eqb (r.mdOf? .obs o) (t.mdOf? .obs o))) &&
-                              ((eqb r.smd.isSome t.smd.isSome) && es.all (fun s => eqb (r.mdOf? .samp s) (t.mdOf? .samp s)))),
+        chk "metadata-by-id" (eo.all (fun o => eqb (mdCanon (r.mdOf? .obs o)) (mdCanon (t.mdOf? .obs o))) &&
+                              es.all (fun s => eqb (mdCanon (r.mdOf? .samp s)) (mdCanon (t.mdOf? .samp s)))),
         chk "type" (eqb r.ttype t.ttype),
         chk "receiver-unchanged" (eqb o.after t)]
 
